@@ -64,11 +64,116 @@ class Cnt(SyncObj):
     def __init__(self, me, others, conf):
         SyncObj.__init__(self, me, others, conf=conf, transportClass=ObsTransport)
         self.n = 0
+        self.log = []
 
     @replicated
     def inc(self):
         self.n += 1
         return self.n
+
+    @replicated
+    def add(self, uid):
+        self.log.append(uid)
+        return len(self.log)
+
+
+NEVER_APPLIED = (1, 2, 3, 4, 6)      # QUEUE_FULL, MISSING_LEADER, DISCARDED, NOT_LEADER, REQUEST_DENIED
+
+
+class Proto(object):
+    """Protocol oracles on the real TCP stack (cross-check of C01/C02/C03 outside the message-level model of E1).
+    Nodes have file journals here, so kills and restarts keep logs, terms and votes.  Commands carry unique ids:
+      C01  the sequence of ids a node has applied is a prefix of (or extends) the longest sequence seen so far,
+           and two nodes at the same applied index hold the same sequence;
+      C03  at most one leader per term (C07 when a voter restarted in between);
+      C02  after the cluster converged: SUCCESS(r) <=> the id sits exactly once at position r of the common
+           sequence, an id reported with a reason that excludes execution is absent, no id occurs twice."""
+
+    def __init__(self, sim):
+        self.sim = sim
+        self.canon = []
+        self.at = {}              # applied index -> (len, digest)
+        self.leaders = {}         # term -> {addr: incarnation}
+        self.subs = {}
+        self.uid = 0
+        self.checked = collections.Counter()
+
+    def flag(self, prop, kind, msg, **facts):
+        sim = self.sim
+        v = Violation(prop, kind, msg, engine='E2', **facts)
+        if v in RAISED:
+            RAISED.remove(v)
+        if sim.stop_props is None or prop in sim.stop_props:
+            raise v
+        sim.other.setdefault((prop, kind), v)
+
+    def submit(self, a):
+        sim = self.sim
+        obj = sim.objs[a]
+        self.uid += 1
+        uid = self.uid
+        rec = {'uid': uid, 'node': a, 'inc': sim.inc[a], 'cbs': []}
+        self.subs[uid] = rec
+
+        def cb(res, err, rec=rec):
+            rec['cbs'].append((res, err))
+        sim.run_node(a, lambda: obj.add(uid, callback=cb))
+        sim.stats['proto_submitted'] += 1
+
+    def observe(self, a):
+        sim = self.sim
+        obj = sim.objs[a]
+        term = obj.raftCurrentTerm
+        if obj._isLeader():
+            d = self.leaders.setdefault(term, {})
+            if a not in d:
+                d[a] = sim.inc[a]
+                if len(d) > 1:
+                    restarted = sim.restarts > 0
+                    self.flag('C07' if restarted else 'C03', 'two_leaders_one_term', 'term %d has leaders %s (real TCP stack)' % (term, sorted(d)),
+                              term=term)
+        log = obj.log
+        n = len(log)
+        k = min(n, len(self.canon))
+        self.checked['prefix_checks'] += 1
+        if log[:k] != self.canon[:k]:
+            j = next(i for i in range(k) if log[i] != self.canon[i])
+            self.flag('C01', 'applied_sequences_diverge', '%s applied id %r as command #%d, another node applied id %r there (real TCP stack)'
+                      % (a, log[j], j + 1, self.canon[j]))
+        if n > len(self.canon):
+            self.canon = list(log)
+        ai = obj.raftLastApplied
+        cur = (n, h32(tuple(log[-8:])))
+        old = self.at.setdefault(ai, cur)
+        if old != cur:
+            self.flag('C01', 'state_differs_at_same_position', '%s at applied index %d has executed %d commands, another node %d (real TCP stack)'
+                      % (a, ai, n, old[0]))
+
+    def final(self, converged):
+        sim = self.sim
+        if not converged:
+            sim.sit['proto_not_converged'] += 1
+            return
+        final = list(self.canon)
+        pos = {}
+        for i, uid in enumerate(final):
+            if uid in pos:
+                self.flag('C02', 'applied_twice', 'id %r was executed as command #%d and #%d (real TCP stack)' % (uid, pos[uid] + 1, i + 1))
+            pos[uid] = i
+        for uid, rec in self.subs.items():
+            if len(rec['cbs']) > 1:
+                self.flag('C02', 'callback_twice', 'callback of id %r fired %d times: %r (real TCP stack)' % (uid, len(rec['cbs']), rec['cbs']))
+            for (res, err) in rec['cbs']:
+                self.checked['callbacks_checked'] += 1
+                if err == 0:
+                    if uid not in pos:
+                        self.flag('C02', 'success_not_committed', 'id %r reported SUCCESS but is not in the common sequence (real TCP stack)' % uid)
+                    elif res != pos[uid] + 1:
+                        self.flag('C02', 'success_wrong_result', 'id %r SUCCESS result %r, it is command #%d (real TCP stack)' % (uid, res, pos[uid] + 1))
+                elif err in NEVER_APPLIED and uid in pos:
+                    self.flag('C02', 'failed_but_committed', 'id %r reported fail reason %d but was executed as command #%d (real TCP stack)'
+                              % (uid, err, pos[uid] + 1), reason=err)
+        sim.sit['proto_final_checked'] += 1
 
 
 class E2Sim(object):
@@ -82,6 +187,7 @@ class E2Sim(object):
         CLK.reset()
         install_virtual_time()
         self.net = socksim.reset_net()
+        self.net.poller_flavour = cfg.get('poller', 'poll')
         socksim.install()
         self.addrs = ['10.0.0.%d:4321' % (i + 1) for i in range(cfg['n'])]
         self.objs = {}
@@ -104,6 +210,15 @@ class E2Sim(object):
         #   stranger : X runs from the start with the members as its partners; no member has ever listed it
         #   removed  : X is a founding member, is removed at run time, and keeps running with its old configuration
         #   ghost    : X is added while it is down, removed again before it ever connected, and only then started
+        # another engine may have run in this process before: take the library's own journal and serializer factories
+        from . import clustersim as _CS
+        S.createJournal = _CS._ORIG_CREATE_JOURNAL
+        S.Serializer = _CS._ORIG_SERIALIZER
+        self.stop_props = cfg.get('stop_props')
+        self.other = {}
+        self.restarts = 0
+        self.tmpdir = None
+        self.proto = Proto(self) if cfg.get('proto') else None
         self.outsider = cfg.get('outsider')
         self.X = '10.0.0.%d:4321' % cfg.get('x_host', 9)
         self.extra = []
@@ -116,12 +231,34 @@ class E2Sim(object):
             self.extra.append(self.X)
             self.start(self.X)
 
-    def conf(self):
+    def conf(self, a=None):
         c = self.cfg
+        kw = {}
+        if c.get('journal') == 'file' and a is not None:
+            if self.tmpdir is None:
+                import tempfile
+                from .common import scratch_root
+                self.tmpdir = tempfile.mkdtemp(prefix='e2-', dir=scratch_root())
+            kw['journalFile'] = os.path.join(self.tmpdir, a.replace(':', '_') + '.journal')
+            # (journal without dump file: compaction would make a restart impossible - listed finding of C06)
+            kw['logCompactionMinEntries'] = 10 ** 9
+            kw['logCompactionMinTime'] = 10 ** 9
         return SyncObjConf(autoTick=False, connectionTimeout=c.get('conn_timeout', 3.5), connectionRetryTime=c.get('retry', 5.0),
                            sendBufferSize=c.get('sndbuf', 65536), recvBufferSize=c.get('rcvbuf', 65536),
-                           appendEntriesUseBatch=True, leaderFallbackTimeout=30.0,
-                           dynamicMembershipChange=self.outsider in ('removed', 'ghost'))
+                           appendEntriesUseBatch=c.get('use_batch', True), leaderFallbackTimeout=30.0,
+                           dynamicMembershipChange=self.outsider in ('removed', 'ghost'), **kw)
+
+    def close(self):
+        for o in self.objs.values():
+            try:
+                j = getattr(o, '_SyncObj__raftLog', None)
+                if j is not None and hasattr(j, '_destroy'):
+                    j._destroy()
+            except Exception:
+                pass
+        if self.tmpdir is not None:
+            import shutil
+            shutil.rmtree(self.tmpdir, ignore_errors=True)
 
     def partners_of(self, a):
         if a == self.X:
@@ -135,7 +272,16 @@ class E2Sim(object):
         host = a.split(':')[0]
         self.net.current = host
         socksim.revive_host(host)
-        self.objs[a] = Cnt(a, self.partners_of(a), self.conf())
+        old = self.objs.get(a)
+        if old is not None:
+            self.restarts += 1
+            try:
+                j = getattr(old, '_SyncObj__raftLog', None)
+                if j is not None and hasattr(j, '_destroy'):
+                    j._destroy()          # the dead incarnation's mapping of the journal file
+            except Exception:
+                pass
+        self.objs[a] = Cnt(a, self.partners_of(a), self.conf(a))
         self.dead.discard(a)
         self.inc[a] += 1
 
@@ -187,6 +333,8 @@ class E2Sim(object):
             return
         CLK.now += dt
         self.run_node(a, self.objs[a].doTick, 0.0)
+        if self.proto is not None and a in self.addrs:
+            self.proto.observe(a)
 
     # -- attribution --------------------------------------------------------------------------
     def on_received(self, transport, me, node, message):
@@ -297,6 +445,10 @@ class E2Sim(object):
                 self.net_step()
                 if rng.random() < cfg.get('fault_rate', 0.01):
                     self.fault()
+                if self.proto is not None and rng.random() < cfg.get('submit_rate', 0.05):
+                    live = [x for x in self.addrs if x not in self.dead]
+                    if live:
+                        self.proto.submit(rng.choice(live))
                 if self.outsider == 'ghost' and step == t_remove // 2:
                     self.mship('add')
                 if self.outsider in ('removed', 'ghost') and step >= t_remove and (step - t_remove) % 400 == 0 and self.x_is_member_somewhere():
@@ -304,10 +456,56 @@ class E2Sim(object):
                         self.mship('remove')
                 if RAISED:
                     raise RAISED[0]
-            self.healthy_phase()
+            if self.proto is not None:
+                self.proto_phase()
+            else:
+                self.healthy_phase()
         except Violation as v:
-            self.violation = v
+            if self.stop_props is not None and v.prop not in self.stop_props:
+                self.other.setdefault((v.prop, v.kind), v)       # another property's monitor ended the run
+            else:
+                self.violation = v
         return self
+
+    def proto_phase(self):
+        """Faults stop; every node runs; the cluster has to converge (bounded), then the history is judged."""
+        self.blackhole.clear()
+        for a in sorted(self.dead):
+            self.start(a)
+        rng = self.rng
+
+        def converged():
+            objs = [self.objs[a] for a in self.addrs]
+            if sum(1 for o in objs if o._isLeader()) != 1:
+                return False
+            ai = set(o.raftLastApplied for o in objs)
+            return len(ai) == 1 and all(o.raftCommitIndex == o.raftLastApplied for o in objs) and len(set(len(o.log) for o in objs)) == 1
+        ka = 16 + 3 * 5 + 1.0
+        bound = 2 * (self.cfg.get('retry', 5.0) + self.cfg.get('conn_timeout', 3.5) + 1.0) + ka + 20.0
+        t0 = CLK.now
+        stable = None
+        ok = False
+        finals = 0
+        while CLK.now - t0 < bound + 30.0:
+            self.settle(0.25)
+            if converged():
+                if stable is None:
+                    stable = CLK.now
+                elif CLK.now - stable >= 3.0:
+                    if finals < 3:
+                        # a command submitted on each node after convergence must get through as well
+                        self.proto.submit(self.addrs[finals % len(self.addrs)])
+                        finals += 1
+                        stable = None
+                        continue
+                    ok = True
+                    break
+            else:
+                stable = None
+        if ok:
+            for a in self.addrs:
+                self.proto.observe(a)
+        self.proto.final(ok)
 
     def settle(self, seconds, dt=0.01):
         t_end = CLK.now + seconds
@@ -316,8 +514,15 @@ class E2Sim(object):
             for a in self.everyone():
                 if a not in self.dead:
                     self.run_node(a, self.objs[a].doTick, 0.0)
+                    if self.proto is not None and a in self.addrs:
+                        self.proto.observe(a)
             self.net_step(healthy=True)
             self.net_step(healthy=True)
+            if self.proto is not None:
+                # a healthy network also has bandwidth: one socket buffer per net step would starve a follower that is far
+                # behind a leader which re-sends its backlog with every heartbeat
+                for _ in range(6):
+                    self.net_step(healthy=True)
             if RAISED:
                 raise RAISED[0]
             self.note_pairs()
@@ -478,11 +683,66 @@ def gen_cfg(seed, i):
 def gen_cfg_outsider(cfg, seed, i):
     """Every third case has an outsider (own generator: the other parameters of a case do not depend on it)."""
     r = random.Random(h32('e2x', seed, i))
+    if random.Random(h32('e2poll', seed, i)).random() < 0.3:
+        cfg['poller'] = 'select'          # conf.pollerType='select' (or a platform without poll): errors are not poll events
     if r.random() < 0.34:
         cfg['outsider'] = r.choice(['stranger', 'removed', 'ghost', 'ghost'])
         cfg['x_host'] = r.choice([0, 9])          # smaller / greater than every member: X is dialled by / dials the members
         cfg['remove_at'] = r.choice([0.2, 0.5, 0.8])
     return cfg
+
+
+def gen_cfg_proto(seed, i):
+    r = random.Random(h32('e2p', seed, i))
+    cfg = gen_cfg(seed, i)
+    cfg.update({'proto': True, 'journal': 'file', 'n': r.choice([2, 3, 3, 4, 5]), 'steps': r.choice([1500, 3000]),
+                'fault_rate': r.choice([0.0, 0.004, 0.01, 0.03]), 'submit_rate': r.choice([0.02, 0.05, 0.15]),
+                'use_batch': r.random() < 0.6, 'conn_timeout': r.choice([3.5, 2.0]), 'retry': r.choice([1.0, 0.2, 5.0]),
+                'sndbuf': r.choice([1024, 65536]), 'rcvbuf': r.choice([256, 65536])})
+    return cfg
+
+
+def run_proto_case(prop, tier, seed, i):
+    """One E2 run with protocol oracles, counted for `prop` (C01, C02 or C03)."""
+    rs = (h32('e2ps', prop, seed) % 100000) * 100000 + i
+    cfg = gen_cfg_proto(seed, i)
+    cfg['stop_props'] = [prop]
+    sim = E2Sim(cfg, rs).run()
+    try:
+        res = {'runs': 1, 'violations': [], 'sit': dict(sim.sit), 'obs': dict(sim.stats), 'escaped': {}, 'inconclusive': None,
+               'other_props': {'%s/%s' % k: 1 for k in sim.other}}
+        res['sit']['real_tcp_stack_run'] = 1
+        res['obs'].update({'e2_' + k: v for k, v in sim.proto.checked.items()})
+        res['obs']['e2_commands_in_common_sequence'] = len(sim.proto.canon)
+        ok = sim.sit.get('proto_final_checked')
+        res['nontrivial_fps'] = [h32('e2p', i, cfg['n'], len(sim.proto.canon) > 0)] if (ok and sim.proto.canon) else []
+        if sim.violation is not None:
+            rec = sim.violation.record()
+            d = os.path.join(VERIF_DIR, 'replays')
+            os.makedirs(d, exist_ok=True)
+            path = os.path.join(d, '%s-e2-%d-%d.json' % (prop, seed, i))
+            with open(path, 'w') as f:
+                json.dump({'property': prop, 'engine': 'rv.e2', 'proto': True, 'seed': seed, 'case': i, 'cfg': cfg, 'violation': rec,
+                           'events_tail': [list(map(str, e)) for e in list(sim.events)[-80:]]}, f, indent=1, default=str)
+            rec['replay'] = path
+            res['violations'].append(rec)
+        return res
+    finally:
+        sim.close()
+
+
+def replay_proto(prop, path):
+    with open(path) as f:
+        doc = json.load(f)
+    res = run_proto_case(prop, 'quick', doc['seed'], doc['case'])
+    for v in res['violations']:
+        print('replayed: %s/%s %s' % (prop, v['kind'], v['msg']))
+        print('REPLAYED ' + json.dumps(v, default=str))
+        if v['kind'] == doc['violation']['kind']:
+            print('VIOLATION property=%s replay=%s' % (prop, path))
+            return 1
+    print('not reproduced')
+    return 0
 
 
 def cases(prop, tier, seed):
